@@ -16,7 +16,7 @@ import (
 var Shapes = []string{
 	"text", "textcrlf", "html", "cyrillic", "cjk", "utf8big", "dna", "numeric", "base64",
 	"elfx86", "pe", "elfarm64", "elfbogus", "pebogus", "machobogus", "wav", "bmp", "ppm", "runs", "zeros",
-	"skewed", "raredom", "ramp255", "ramp256", "smallalpha", "periodic", "random", "magicmix", "repeatblocks", "sorted",
+	"skewed", "raredom", "ramp255", "ramp256", "smallalpha", "periodic", "random", "magicmix", "repeatblocks", "sorted", "utf8dirty",
 }
 
 var words = strings.Fields(`the of and to a in is that it was for on are as with his they at be this from have or by one had not but what all were
@@ -123,6 +123,32 @@ func Make(shape string, n int, seed int64) []byte {
 			}
 			if r.Intn(9) == 0 {
 				b = append(b, ' ')
+			}
+		}
+	case "utf8dirty":
+		// well-formed looking UTF-8 (small symbol map, mostly 3-byte sequences plus ASCII words) in which a
+		// few 3rd/4th bytes of multi-byte sequences are NOT continuation bytes
+		syms := []rune{0x20AC, 0x4E2D, 0x6587, 0x65E5, 0x672C, 0x8A9E, 0x3042, 0x3044, 0x3046, 0x2013, 0x2019, 0x1F600, 0x1F601}
+		next := 1500 + r.Intn(3000)
+		for len(b) < n {
+			switch r.Intn(6) {
+			case 0:
+				b = append(b, words[zipf(r, 60)]...)
+				b = append(b, ' ')
+			case 1:
+				b = append(b, '\n')
+			default:
+				c := syms[zipf(r, len(syms))]
+				start := len(b)
+				b = appendRune(b, c)
+				if len(b) > next {
+					// damage the last byte of this sequence
+					b[len(b)-1] = "A0 z"[r.Intn(4)]
+					if r.Intn(3) == 0 && len(b)-start == 4 {
+						b[len(b)-2] = 0x41
+					}
+					next = len(b) + 2000 + r.Intn(20000)
+				}
 			}
 		}
 	case "dna":
